@@ -242,6 +242,8 @@ pub fn icmp4_error(typ: u8, code: u8, quoted: &[u8], form: ExtForm, ext: &[u8]) 
         ExtForm::None => m.extend_from_slice(quoted),
         ExtForm::Compliant => {
             let mut q = quoted.to_vec();
+            // RFC 1812: an ICMPv4 error does not exceed 576 octets; the length attribute counts 32-bit words
+            q.truncate(576 - 20 - 8 - ext.len());
             while q.len() < 128 || q.len() % 4 != 0 {
                 q.push(0);
             }
@@ -279,6 +281,8 @@ pub fn icmp6_error(
         ExtForm::None => m.extend_from_slice(quoted),
         ExtForm::Compliant => {
             let mut q = quoted.to_vec();
+            // RFC 4443: an ICMPv6 error does not exceed the minimum MTU (1280 octets)
+            q.truncate((1280 - 40 - 8 - ext.len()) / 8 * 8);
             while q.len() < 128 || q.len() % 8 != 0 {
                 q.push(0);
             }
